@@ -7,7 +7,7 @@ pub open spec fn pkt_matches(p: Packet, m: MsgSpec) -> bool {
 // contract of Packet::from_bytes (C03 three-valued form + C01 strict acceptance)
 pub open spec fn dec_post(b: Seq<u8>, r: Result<Packet, MessageError>) -> bool {
     &&& (parse_msg(b) is None ==> r is Err)
-    &&& (parse_msg(b) is Some && !lone_marker(b) ==> r is Ok)
+    &&& (parse_msg(b) is Some && enc_shape(b) ==> r is Ok)
     &&& (r is Ok ==> parse_msg(b) is Some && pkt_matches(r->Ok_0, parse_msg(b)->0))
 }
 pub open spec fn pkt_opts(p: Packet) -> Seq<Opt> { flat_map(opts_view(p.options), 65536) }
